@@ -318,6 +318,19 @@ AddRecursion(mi, form) ==
                      m1 == [name |-> "f1", kind |-> "string", ref |-> "", card |-> "single", key |-> "", oneof |-> 1, anns |-> <<>>]
                      m2 == [name |-> "f2", kind |-> "bool", ref |-> "", card |-> "single", key |-> "", oneof |-> 1, anns |-> <<>>]
                  IN msgs' = ms \o <<[NewMsg(t, 0, "none") EXCEPT !.oneofs = <<[name |-> "choice", opt |-> "expose"]>>, !.fields = <<m1, m2>>]>>
+         [] form = "flatlasso" ->     \* flattened into a cycle it is not part of: mi -> t <-> t+1, all three fields flattened.
+                                      \* Asked for mi, the walk over flattened members never comes back to where it started
+              /\ Len(msgs) + 1 < MaxMsgs
+              /\ LET t == Len(msgs) + 1
+                     fl == <<[cls |-> "j5", arm |-> "object", var |-> "flatten", consistent |-> TRUE]>>
+                     ms == PutField(mi, "message", MsgName(t), "single", "string", "none", "none")
+                     fi == Len(ms[mi].fields)
+                     e1 == [name |-> "f1", kind |-> "message", ref |-> MsgName(t + 1), card |-> "single", key |-> "", oneof |-> 0, anns |-> fl]
+                     e2 == [name |-> "f2", kind |-> "message", ref |-> MsgName(t), card |-> "single", key |-> "", oneof |-> 0, anns |-> fl]
+                     s1 == [name |-> "f2", kind |-> "string", ref |-> "", card |-> "single", key |-> "", oneof |-> 0, anns |-> <<>>]
+                     s2 == [name |-> "f1", kind |-> "string", ref |-> "", card |-> "single", key |-> "", oneof |-> 0, anns |-> <<>>]
+                 IN msgs' = [ms EXCEPT ![mi].fields[fi].anns = fl]
+                            \o <<[NewMsg(t, 0, "none") EXCEPT !.fields = <<e1, s1>>], [NewMsg(t + 1, 0, "none") EXCEPT !.fields = <<s2, e2>>]>>
          [] form = "mutual" ->
               /\ Len(msgs) < MaxMsgs
               /\ LET t == Len(msgs) + 1
